@@ -4,7 +4,13 @@ import (
 	"fmt"
 	"sort"
 	"strings"
+	"sync/atomic"
 )
+
+// MaxEscalations bounds the number of long second attempts per run: a loaded machine makes a few proofs
+// slow, a broken tree makes many obligations undecided and must still be reported quickly.
+var MaxEscalations int32 = 6
+var escalations int32
 
 // Discharge decides one obligation: hyps[:NHyps] && pc && !goal must be unsat.
 func Discharge(r *FuncResult, o *Obligation, work string, timeoutS, seed int, mode string) {
@@ -42,6 +48,17 @@ func Discharge(r *FuncResult, o *Obligation, work string, timeoutS, seed int, mo
 	hyps := append(append([]*Term{}, all...), o.PC, goalNeg)
 	script := p.Script(hyps, o.Name+"\n"+o.Text)
 	res = Solve(work, o.Name, script, timeoutS, seed, mode)
+	if res.Status != "unsat" && res.Status != "sat" && atomic.AddInt32(&escalations, 1) <= MaxEscalations {
+		// undecided within the budget: one more attempt with four times the budget before anything is
+		// reported (a loaded machine must not turn a 5 s proof into an alarm)
+		long := timeoutS * 4
+		if long > 120 {
+			long = 120
+		}
+		if r2 := Solve(work, o.Name+".long", script, long, seed+1, "race"); r2.Status == "unsat" || r2.Status == "sat" {
+			res = r2
+		}
+	}
 	o.Result = res
 	if res.Status == "unsat" {
 		o.Status = "discharged"
